@@ -75,9 +75,6 @@ Proof.
 Qed.
 
 (* ---------------------------------------------------------------- hop-by-hop *)
-Lemma land31_lt x : N.land x 31 < 32.
-Proof. change 31 with (N.ones 5). rewrite N.land_ones. apply N.mod_lt. discriminate. Qed.
-
 Lemma glue_hbh_walk n : forall data pos f1 f2, (len data - pos <= n)%nat -> (n < f1)%nat -> (n < f2)%nat ->
   cls (hbh_loop f1 data pos) = vcls (hbh_walk f2 data pos).
 Proof.
@@ -88,27 +85,32 @@ Proof.
   - unfold slfrom. destruct (Nat.leb_spec pos (len data)); [|reflexivity]. cbn [bind len].
     destruct (Nat.ltb_spec (len data - pos) 1); [reflexivity|].
     set (b := mkSlice (skipn pos (arr data)) (len data - pos)).
-    unfold hbh_option. rewrite !idx_ok by (unfold b; cbn [len]; lia). cbn [bind].
-    pose proof (land31_lt (nth 0 (arr b) 0)) as Hlt.
-    set (t := N.land (nth 0 (arr b) 0) 31) in *.
+    unfold hbh_option, orr. rewrite !idx_ok by (unfold b; cbn [len]; lia). cbn [bind].
+    set (t := nth 0 (arr b) 0).
     assert (Hrec : forall pos', (pos < pos')%nat ->
-              cls (if Nat.leb (len data) pos' then Ok tt else hbh_loop f1 data pos') =
-              vcls (if Nat.leb (len data) pos' then Ok VU else hbh_walk f2 data pos')).
-    { intros pos' Hp. destruct (Nat.leb_spec (len data) pos'); [reflexivity|]. apply IH; lia. }
-    destruct (N.eqb_spec t 0); [cbn [bind]; apply Hrec; lia|].
-    destruct (N.eqb_spec t 1).
-    + destruct (N.eqb_spec t 5); [lia|].
-      change (len b) with (len data - pos)%nat.
-      destruct (Nat.ltb_spec (len data - pos) 2); [reflexivity|].
-      rewrite !idx_ok by (unfold b; cbn [len]; lia). cbn [bind]. apply Hrec; lia.
-    + destruct (N.eqb_spec t 5).
-      * change (len b) with (len data - pos)%nat.
-        destruct (Nat.ltb_spec (len data - pos) 4); [reflexivity|].
-        destruct (sl b 2 4); cbn [bind]; try reflexivity. apply Hrec; lia.
-      * destruct (N.eqb_spec t 194); [lia|].
-        change (len b) with (len data - pos)%nat.
-        destruct (Nat.ltb_spec (len data - pos) 2); [reflexivity|].
-        rewrite !idx_ok by (unfold b; cbn [len]; lia). cbn [bind]. apply Hrec; lia.
+              cls (if Nat.ltb (len data) pos' then Err EParseFrame
+                   else if Nat.eqb pos' (len data) then Ok tt else hbh_loop f1 data pos') =
+              vcls (if Nat.ltb (len data) pos' then Ok VE
+                    else if Nat.eqb pos' (len data) then Ok VU else hbh_walk f2 data pos')).
+    { intros pos' Hp. destruct (Nat.ltb_spec (len data) pos'); [reflexivity|].
+      destruct (Nat.eqb_spec pos' (len data)); [reflexivity|]. apply IH; lia. }
+    change (len b) with (len data - pos)%nat.
+    destruct (t =? 0); [cbn [bind]; apply Hrec; lia|].
+    destruct (t =? 1).
+    { destruct (Nat.ltb_spec (len data - pos) 2); [reflexivity|].
+      rewrite !idx_ok by (unfold b; cbn [len]; lia). cbn [bind]. apply Hrec; lia. }
+    destruct (t =? 5).
+    { destruct (Nat.ltb_spec (len data - pos) 4); cbn [bind]; [reflexivity|].
+      rewrite !idx_ok by (unfold b; cbn [len]; lia). cbn [bind].
+      destruct (negb (nth 1 (arr b) 0 =? 2)); cbn [bind]; [reflexivity|].
+      destruct (sl b 2 4); cbn [bind]; try reflexivity. apply Hrec; lia. }
+    destruct (t =? 194).
+    { destruct (Nat.ltb_spec (len data - pos) 6); cbn [bind]; [reflexivity|].
+      rewrite !idx_ok by (unfold b; cbn [len]; lia). cbn [bind].
+      destruct (negb (nth 1 (arr b) 0 =? 4)); cbn [bind]; [reflexivity|]. apply Hrec; lia. }
+    destruct (Nat.ltb_spec (len data - pos) 2); [reflexivity|].
+    destruct (negb (N.shiftr t 6 =? 0)); [reflexivity|].
+    rewrite !idx_ok by (unfold b; cbn [len]; lia). cbn [bind]. apply Hrec; lia.
 Qed.
 
 Theorem glue_hbh_parse p fuel : (len p <= fuel)%nat ->
